@@ -16,6 +16,7 @@
      cm_create bitidx bitcount = MASK | cm_all_set MASK MASK = b | cm_any_set MASK MASK = b | cm_is_empty MASK = b
      cm_is_full MASK = b | cm_intersect MASK MASK = MASK | cm_clear MASK MASK = MASK | cm_set MASK MASK = MASK
      cm_committed_size MASK total = n | cm_next_run MASK idx = idx count | cm_runs MASK = n (idx count)*n
+     cmw_next_run MASK idx = idx count | cmw_runs MASK = n (idx count)*n     (word-level model, Model/MaskWords.v)
      seg_commit_mask base kind size info conservative p sz = start full MASK
      page_align conservative addr size = start csize
      seg_commit CFG SEG p size now ANS = ok SEGO CALLS SMP        (also seg_ensure)
@@ -115,6 +116,13 @@ let eval (fn : string) (args : string list) (res : string list) : string list =
   | "cm_runs" ->
     let a = rd_big c 8 in let rs = Mask.mask_runs a in
     string_of_int (L.length rs) :: L.concat (L.map (fun (i, k) -> [sn i; sn k]) rs)
+  (* the same two records against the WORD-level model (Model/MaskWords.v follows the C loops over the 8 words) *)
+  | "cmw_next_run" -> let ws = rd_list c 8 rd_n in let i = rd_n c in let (i', k) = MaskWords.next_run_words ws i in [sn i'; sn k]
+  | "cmw_runs" ->
+    let ws = rd_list c 8 rd_n in
+    (match MaskWords.foreach_words ws with
+     | Some rs -> string_of_int (L.length rs) :: L.concat (L.map (fun (i, k) -> [sn i; sn k]) rs)
+     | None -> ["fuel-exhausted"])
   | "seg_commit_mask" ->
     let base = rd_n c in let kind = rd_i c in let size = rd_n c in let info = rd_n c in let cons = rd_b c in
     let p = rd_n c in let sz_ = rd_n c in
